@@ -1316,6 +1316,42 @@ impl Engine for C13 {
                     *b |= 0xf0;
                 }
             }
+            if r.chance(1, 2) {
+                // the encoding (by the reference codec) of a number at or beyond the edge of the
+                // supported range, at a random alignment, followed by junk: must be decoded exactly
+                // or rejected, never truncated
+                let edge: [u128; 14] = [
+                    (1 << 31) - 1,
+                    1 << 31,
+                    (1 << 31) + 1,
+                    (1 << 32) - 1,
+                    1 << 32,
+                    (1 << 32) + 1,
+                    (1 << 33) + 12345,
+                    1 << 40,
+                    (1 << 63) - 1,
+                    1 << 63,
+                    (1 << 64) + 5,
+                    1 << 90,
+                    (1 << 16) + 1,
+                    255,
+                ];
+                let n = edge[r.usize_below(edge.len())] + u128::from(r.below(3));
+                let pre = r.usize_below(8);
+                let mut bits: Vec<bool> = (0..pre).map(|_| r.bool()).collect();
+                bits.extend(natural::encode(n));
+                for _ in 0..r.urange(0, 24) {
+                    bits.push(r.bool());
+                }
+                let mut rops: Vec<ROp> = (0..pre).map(|_| ROp::Bit).collect();
+                let ty = *r.pick(&NTy::ALL);
+                rops.push(ROp::Nat(ty, if r.chance(1, 3) { Some(i128::from(r.next_u64())) } else { None }));
+                rops.push(ROp::Count);
+                let plan = Plan { wops: vec![], faults: vec![], source: Source::Bytes(pack(&bits)), window: None, rops, close: false, collect: false };
+                self.exec_plan(&plan, out);
+                out.count("edge_of_range_naturals", 1);
+                return;
+            }
             let n = r.urange(1, 12);
             let plan = Plan {
                 wops: vec![],
